@@ -149,6 +149,41 @@ def detect(ids):
     print('%d of %d seeded defects caught by the check of their own property' % (caught, len(out)))
 
 
+def summary():
+    all_ids = sorted(d for d in os.listdir(SEEDED) if os.path.exists(os.path.join(SEEDED, d, 'patch.diff')))
+    with multiprocessing.Pool(12) as pool:
+        out = pool.map(detect_one, all_ids)
+    lines = ['# Seeded defects and the checks that report them', '',
+             'Generated by `tools/seeds.py summary` (applies every patch to a scratch copy of the',
+             'current /repo/yalafi and runs all checks).  "own" = rules of the check of the property',
+             'the change was written against; "other" = checks of other properties that also report it.', '',
+             '| seed | files | change (first line of notes.md) | own check | other checks |',
+             '|------|-------|----------------------------------|-----------|--------------|']
+    caught = 0
+    for sid, res, msg in out:
+        own = sid.split('-')[0]
+        d = os.path.join(SEEDED, sid)
+        notes = open(os.path.join(d, 'notes.md')).read() if os.path.exists(os.path.join(d, 'notes.md')) else ''
+        line = ''
+        for l in notes.splitlines():
+            l = l.strip().lstrip('#').strip()
+            if len(l) > 25:
+                line = l[:150].replace('|', '/')
+                break
+        patch = open(os.path.join(d, 'patch.diff')).read()
+        files = sorted({l.split(' b/')[-1].replace('yalafi/', '') for l in patch.splitlines()
+                        if l.startswith('diff --git')})
+        res = res or {}
+        hit = own in res and not any('ANALYSIS' in x for x in res[own])
+        caught += bool(hit)
+        others = '; '.join('%s: %s' % (k, ','.join(v)) for k, v in sorted(res.items()) if k != own)
+        lines.append('| %s | %s | %s | %s | %s |' % (sid, ', '.join(files), line,
+                                                  ', '.join(res.get(own, [])) if hit else '—', others or ''))
+    lines += ['', '%d of %d seeded defects are reported by the check of their own property.' % (caught, len(out)), '']
+    open(os.path.join(SEEDED, 'SUMMARY.md'), 'w').write('\n'.join(lines))
+    print('%d of %d' % (caught, len(out)))
+
+
 def neutral_one(src):
     from sa.model import Model, AnalysisError
     from sa.main import run_property
@@ -207,5 +242,7 @@ if __name__ == '__main__':
         confirm(sys.argv[2:])
     elif sys.argv[1] == 'detect':
         detect(sys.argv[2:])
+    elif sys.argv[1] == 'summary':
+        summary()
     elif sys.argv[1] == 'neutral':
         neutral(sys.argv[2:])
